@@ -44,6 +44,10 @@ def frame_text(fr: Dict[str, Any], op_id: str = "x"):
     if k == "complete":
         return J({"type": "complete", "id": op_id})
     if k == "error":
+        if fr.get("shape") == "absent":          # degenerate but harmless: no payload member at all
+            return J({"type": "error", "id": op_id})
+        if fr.get("shape") == "empty_obj":
+            return J({"type": "error", "id": op_id, "payload": {}})
         return J({"type": "error", "id": op_id, "payload": fr["errors"]})
     if k == "nonjson":
         return fr.get("text", "not json {")
@@ -70,6 +74,34 @@ def frame_text(fr: Dict[str, Any], op_id: str = "x"):
     if k == "badutf8":
         return b"\xff\xfe{\"type\": \"next\"}"
     raise ValueError(k)
+
+
+class OptionalYield:
+    """A next frame whose data is falsy (null, {}, [], 0, "", false): the property says "yields the data of each next
+    frame", the declared element type says a non-empty mapping; delivering it and skipping it are both accepted - what is
+    asserted is that it is no error and that the stream goes on."""
+
+    def __init__(self, data):
+        self.data = data
+
+    def __repr__(self):
+        return "Optional(%r)" % (self.data,)
+
+
+def match_yields(got: list, want: list, prefix: bool = False) -> bool:
+    """got == want with every OptionalYield either present or absent (prefix=True: got is a prefix of such a sequence)."""
+    i = 0
+    for w in want:
+        if isinstance(w, OptionalYield):
+            if i < len(got) and got[i] == w.data and (type(got[i]) is type(w.data)):
+                i += 1
+            continue
+        if i >= len(got):
+            return prefix
+        if got[i] != w:
+            return False
+        i += 1
+    return i == len(got)
 
 
 def is_probe(frames: List[Dict[str, Any]]) -> bool:
@@ -99,7 +131,7 @@ def expected(frames: List[Dict[str, Any]]) -> Dict[str, Any]:
             terminal = ("invalid", "first frame is %s, not connection_ack" % k)
             break
         if k == "next":
-            yields.append(fr["data"])
+            yields.append(OptionalYield(fr["data"]) if fr.get("optional") else fr["data"])
         elif k == "ping":
             pongs += 1
         elif k in ("pong", "ack"):
@@ -108,7 +140,9 @@ def expected(frames: List[Dict[str, Any]]) -> Dict[str, Any]:
             terminal = ("complete", None)
             break
         elif k == "error":
-            terminal = ("error", fr["errors"])
+            # an error frame without a usable payload: the multi-error (with no entries) and the invalid-message error
+            # are both accepted; anything else (KeyError, TypeError, going on) is not
+            terminal = ("error_or_invalid", fr.get("shape")) if fr.get("shape") else ("error", fr["errors"])
             break
         elif k in ("nonjson", "unknown", "notype", "next_nodata"):
             terminal = ("invalid", k)
